@@ -94,9 +94,11 @@ def run(tier, seed):
     dev = []
     for cfg in CONFIGS[tier]:
         explore.bfs(h, cfg, DEPTH[tier], col, seed=seed, result=res, merge_all=(tier == 'thorough'))
-        st = explore.deviations(h, cfg, DEVK[tier], 50, col)
-        dev.append({'cfg': cfg, 'executions': st['executions'], 'events': st['events'], 'k': st['k'],
-                    'outcomes': sorted(map(repr, st['outcomes']))})
+        for kind in ('coop', 'silent', 'refuse'):
+            kk, win = (2, 8) if (tier == 'quick' and kind != 'coop') else (DEVK[tier], None)
+            st = explore.deviations(h, cfg, kk, 50, col, script_kw={'kind': kind}, window=win)
+            dev.append({'cfg': cfg, 'script': kind, 'executions': st['executions'], 'events': st['events'],
+                        'k': st['k'], 'outcomes': sorted(map(repr, st['outcomes']))})
     explore.close_pool()
     n_new, n_known, summary = col.finish('e1-history')
     cov = {
